@@ -3,6 +3,7 @@ from __future__ import annotations
 
 import ast
 
+from .. import efg as _efg
 from ..pyfacts import AnalysisError, src
 from ..genfacts import GenFacts, GEN, STDLIB
 from ..asmtext import AsmText
@@ -114,7 +115,7 @@ def run(repo, chk):
     for p, ev in gf.inlined('arith_op_reg_arg'):
         if p.outcome == 'raise':
             continue
-        conds = {e.text: e.truth for e in ev if e.kind == 'cond'}
+        conds = _efg.Conds(ev)
         its = items_of(ev)
         op = [i for i in its if ev[i].kind == 'emit' and gf.ctor_kind(ev, i) == ('tbl', 'arith_map')]
         if not op:
@@ -164,7 +165,7 @@ def run(repo, chk):
         for p, ev in gf.inlined(fname):
             if p.outcome == 'raise':
                 continue
-            conds = {e.text: e.truth for e in ev if e.kind == 'cond'}
+            conds = _efg.Conds(ev)
             if conds.get('self.unchecked') is True:
                 continue
             its = items_of(ev)
@@ -232,7 +233,7 @@ def run(repo, chk):
         arm = F.arm_of(ev, len(ev) - 1)
         if not arm.startswith('ArrayInitializer') or p.outcome == 'raise':
             continue
-        conds = {e.text: e.truth for e in ev if e.kind == 'cond'}
+        conds = _efg.Conds(ev)
         if conds.get('self.unchecked') is True:
             continue
         n_ai += 1
@@ -268,7 +269,7 @@ def run(repo, chk):
 
     # ---------------- entry guard ------------------------------------------------------------
     for p, ev in gf.inlined('gen_func'):
-        conds = {e.text: e.truth for e in ev if e.kind == 'cond'}
+        conds = _efg.Conds(ev)
         if conds.get('self.unchecked') is not False or p.outcome == 'raise':
             continue
         its = items_of(ev)
@@ -472,7 +473,7 @@ def _preemptive(repo, chk, gf):
         arm = F.arm_of(ev, len(ev) - 1)
         if not arm.startswith('ReturnStatement') or p.outcome != 'return':
             continue
-        conds = {e.text: e.truth for e in ev if e.kind == 'cond'}
+        conds = _efg.Conds(ev)
         its = items_of(ev)
         jn = [i for i in its if ev[i].kind == 'emit' and ev[i].ctor == 'asm.Jump' and src(ev[i].args[0]) == 'stdlib.nonlocal_preempt']
         want = conds.get('self.needs_return_protection') is True
